@@ -64,14 +64,23 @@ Proof. vm_compute. constructor. Qed.
 (* a protected call that yields, is resumed with a string, and then fails: the leaf is reached
    along a one-reply path and pcall turns it into (false, "boom") *)
 Definition boom : bytes := [98;111;111;109].
-Example ex_yield_then_error : exists k s' s1,
-  call 40 (pframes fr0) (VFun 3) [] st_co = Eff (EYield [VNum 1%float]) s' k /\
-  leaf (call 40 (pframes fr0) (VFun 3) [] st_co) [(RVals [VStr boom], s')] (Err (VStr (pos_prefix 5 ++ boom)) s1).
-Proof.
-  eexists. eexists. eexists. split.
-  - vm_compute. reflexivity.
-  - vm_compute. constructor. vm_compute. constructor. reflexivity.
-Qed.
+Definition first_effect {A} (r : res A) : option effect := match r with Eff e _ _ => Some e | _ => None end.
+
+Example ex_yield_first : first_effect (call 40 (pframes fr0) (VFun 3) [] st_co) = Some (EYield [VNum 1%float]).
+Proof. vm_compute. reflexivity. Qed.
+
+Definition ys1 : state :=
+  match follow (call 40 (pframes fr0) (VFun 3) [] st_co) [(RVals [VStr boom], st_co)] with
+  | Some (Err _ s) => s | _ => st0 end.
+
+Example ex_yield_then_error :
+  leaf (call 40 (pframes fr0) (VFun 3) [] st_co) [(RVals [VStr boom], st_co)] (Err (VStr (pos_prefix 5 ++ boom)) ys1).
+Proof. apply follow_leaf_lemma; [vm_compute; reflexivity|reflexivity]. Qed.
+
+Example ex_pcall_after_yield : exists x,
+  leaf (builtin_call 41 fr0 BPcall [VFun 3] st_co) [(RVals [VStr boom], st_co)] x /\
+  x = Ret [VBool false; VStr (pos_prefix 5 ++ boom)] ys1.
+Proof. apply pcall_leaf_err_lemma. exact ex_yield_then_error. Qed.
 
 (* error(): a table, a boolean and nil are raised unchanged at level 1 and 2 *)
 Example ex_error_table : builtin_call 5 fr0 BError [VTab 0; vint 2] st0 = Err (VTab 0) st0.
